@@ -37,7 +37,7 @@ COMPONENTS = {
     "real": ["DefaultRealizationFilter (cvar-*)", "EnsembleEvaluator", "config validation", "plan steps", "estimators"],
     "stub": ["SimEvaluator", "sim/scripted optimizer", "sim/inject sampler"],
 }
-PROBES = ["ranking_entries_checked", "rows_compared", "ordered_compared", "pn_within_ulp_of_integer", "all_failed", "lower_bounded_constraint",
+PROBES = ["far_one_sided_bound", "ranking_entries_checked", "rows_compared", "ordered_compared", "pn_within_ulp_of_integer", "all_failed", "lower_bounded_constraint",
           "equality_constraint", "upper_bounded_constraint", "objective_flavour", "constraint_flavour", "some_failed",
           "tail_mean_compared", "gradient_result_rows"]
 
@@ -77,6 +77,12 @@ def generate(seed: int, index: int, tier: str) -> dict:
             kind = rng.choice(["le", "ge", "eq", "two"])
             v = round(rng.uniform(-1, 1), 3)
             lo, hi = {"le": (-gen.INF, v), "ge": (v, gen.INF), "eq": (v, v), "two": (v, v + 1.0)}[kind]
+            if kind in ("le", "ge") and rng.random() < 0.3:
+                # a one-sided bound far away from the values: "largest for upper-bounded, smallest for lower-bounded"
+                # is a statement about the values, whatever the magnitude of the bound
+                big = rng.choice([1e17, 3e16, 1e6])
+                lo, hi = (-gen.INF, big) if kind == "le" else (-big, gen.INF)
+                scn["far_one_sided_bound"] = True
             nl["lower_bounds"][j], nl["upper_bounds"][j] = lo, hi
     mode = index % 4
     if mode == 1:
@@ -156,6 +162,8 @@ def execute(scn: dict) -> dict:
                 badness, direction = vals, "largest"
             else:
                 probe("constraint_flavour")
+                if scn.get("far_one_sided_bound"):
+                    probe("far_one_sided_bound")
                 j = int(flt["options"]["sort"])
                 bk = _bound_kind(cfg, tm, j)
                 lo = tm.con_to_opt(np.asarray(cfg["nonlinear_constraints"]["lower_bounds"], float))[j]
